@@ -74,7 +74,7 @@ CLAIMED = {
     "C09": ("bounded-exhaustive differential exploration: the same enumerated inputs through both real back-ends, parsed records "
             "compared field by field",
             "C07's dataset scope x 80 configurations with 15 colour/border/tick/dot-radius/canvas/latex variants in rotation, box sizes with many "
-            "significant digits, axes of ~2000 and ~40000 units; SVG and TikZ records "
+            "significant digits, axes of ~2000, ~40000 and ~3,000,000 units; SVG and TikZ records "
             "must agree on axis, boxes, links point for point, dots, ticks, colours and texts." + _N,
             "trusted: mc/draw.py parsers, mc/uni.py", "DESIGN.md sections 4 C09, 10"),
     "C10": ("level-synchronous breadth-first search over construct/export histories on 5-6 timeline specs that together use every "
